@@ -580,15 +580,6 @@ impl<'a> Searcher<'a> {
         traversal_mode: TraversalMode,
         process_queue: bool,
     ) -> io::Result<()> {
-        // Prevents infinite loops when following symlinks
-        if self.current_follow_symlinks {
-            if self.visited_dirs.contains(&dir.to_path_buf()) {
-                return Ok(());
-            } else {
-                self.visited_dirs.insert(dir.to_path_buf());
-            }
-        }
-
         // Canonicalize the path to resolve symlinks and relative paths
         let canonical_path = crate::util::canonical_path(&dir.to_path_buf());
         if canonical_path.is_err() {
@@ -605,6 +596,13 @@ impl<'a> Searcher<'a> {
         }
 
         let canonical_path = canonical_path.unwrap();
+
+        // Prevents infinite loops and duplicates when following symlinks: every real directory
+        // is traversed once, whichever path leads to it first
+        if self.current_follow_symlinks && !self.visited_dirs.insert(PathBuf::from(&canonical_path)) {
+            return Ok(());
+        }
+
         let canonical_depth = crate::util::calc_depth(&canonical_path);
 
         let base_depth = match root_depth {
